@@ -1,6 +1,7 @@
 SPECIFICATION Spec
 CONSTANT UseMutex = TRUE
 CONSTANT SharedScratch = TRUE
+CONSTANT AtomicAdd = TRUE
 CONSTANT TryLock = FALSE
 INVARIANT ParEqualsSeq
 INVARIANT NoLostStrategyUpdate
